@@ -39,7 +39,7 @@ PROPS = {
     'C19': dict(spec_mods=['SsoSpec.C19'], engines=['system', 'authflow', 'proxyflow', 'sfwrap']),
     'C20': dict(spec_mods=['SsoSpec.C20'], engines=['htmlesc', 'authflow', 'proxyflow']),
     'C18': dict(spec_mods=['SsoSpec.C18'], engines=['proxyflow', 'authflow']),
-    'C12': dict(spec_mods=['SsoSpec.C12'], engines=['forward']),
+    'C12': dict(spec_mods=['SsoSpec.C12'], engines=['forward', 'config']),
     'C13': dict(spec_mods=['SsoSpec.C13'], engines=['proxyflow']),
     'C14': dict(spec_mods=['SsoSpec.C14'], engines=['config']),
     'C15': dict(spec_mods=['SsoSpec.C15'], engines=['breaker']),
@@ -62,12 +62,12 @@ AF_FLOOR = ['authflow:signin/code', 'authflow:signin/page', 'authflow:signin/err
             'authflow:outside-service']
 FW_FLOOR = ['forward:overlap/overlapped', 'forward:authenticated', 'forward:skip-auth', 'forward:connection-nominates-tracked', 'forward:session-cookie-present', 'forward:rsa/verifies', 'forward:rsa/mismatch', 'forward:hmac/on']
 FLOORS = {
-    'C03': FW_FLOOR + PF_FLOOR, 'C12': FW_FLOOR, 'C07': AF_FLOOR, 'C08': AF_FLOOR + ['authflow:refresh/refreshed', 'authflow:refresh/400', 'authflow:validate/200', 'authflow:validate/401', 'authflow:profile/ok', 'system:login/ok'], 'C09': AF_FLOOR + ['sfwrap:auth/validate/leader', 'sfwrap:auth/validate/follower'], 'C10': AF_FLOOR + ['sfwrap:auth/redeem/leader'], 'C19': AF_FLOOR + PF_FLOOR + ['sfwrap:auth/revoke/leader', 'sfwrap:auth/revoke/follower', 'system:login/ok', 'system:signout/ok', 'system:signout/500', 'system:visit/revoked-and-due', 'system:visit/revoked-not-due', 'system:visit/validate/ok', 'system:visit/refresh/ok', 'system:login/already-signed-in-at-authenticator'], 'C20': ['htmlesc:escaped', 'htmlesc:verbatim', 'authflow:signin/page', 'authflow:signout/page', 'authflow:signout/revoke-failed', 'authflow:gate/SignIn/400', 'proxyflow:cb/errorParam'],
+    'C03': FW_FLOOR + PF_FLOOR, 'C12': FW_FLOOR + ['config:env'], 'C07': AF_FLOOR, 'C08': AF_FLOOR + ['authflow:refresh/refreshed', 'authflow:refresh/400', 'authflow:validate/200', 'authflow:validate/401', 'authflow:profile/ok', 'system:login/ok'], 'C09': AF_FLOOR + ['sfwrap:auth/validate/leader', 'sfwrap:auth/validate/follower'], 'C10': AF_FLOOR + ['sfwrap:auth/redeem/leader'], 'C19': AF_FLOOR + PF_FLOOR + ['sfwrap:auth/revoke/leader', 'sfwrap:auth/revoke/follower', 'system:login/ok', 'system:signout/ok', 'system:signout/500', 'system:visit/revoked-and-due', 'system:visit/revoked-not-due', 'system:visit/validate/ok', 'system:visit/refresh/ok', 'system:login/already-signed-in-at-authenticator'], 'C20': ['htmlesc:escaped', 'htmlesc:verbatim', 'authflow:signin/page', 'authflow:signout/page', 'authflow:signout/revoke-failed', 'authflow:gate/SignIn/400', 'proxyflow:cb/errorParam'],
     'C01': PF_FLOOR + ['sfwrap:proxy/validate/follower', 'sfwrap:proxy/redeem/leader'], 'C04': PF_FLOOR + ['sfwrap:proxy/validate/leader', 'sfwrap:proxy/validate/follower', 'sfwrap:proxy/refresh/follower'], 'C05': PF_FLOOR, 'C13': PF_FLOOR, 'C06': PF_FLOOR + ['sfwrap:proxy/redeem/leader'], 'C18': PF_FLOOR,
-    'C14': ['config:loaded', 'config:loaded/skip-regex', 'config:error/missingService', 'config:error/missingFrom', 'config:error/missingTo',
+    'C14': ['config:loadenv/loaded', 'config:loadenv/refused', 'config:env', 'config:loaded', 'config:loaded/skip-regex', 'config:error/missingService', 'config:error/missingFrom', 'config:error/missingTo',
             'config:error/badFromUrl', 'config:error/badFromRegex', 'config:error/unknownType', 'config:error/badSkipRegex',
             'config:error/badHmac', 'config:error/noAllowRule'],
-    'C02': ['aead:repeat/many', 'aead:genuine/accepted', 'aead:genuine-again/accepted', 'aead:other-key/rejected', 'aead:bitflip/rejected', 'aead:truncate-string/rejected',
+    'C02': ['aead:stores', 'aead:repeat/many', 'aead:genuine/accepted', 'aead:genuine-again/accepted', 'aead:other-key/rejected', 'aead:bitflip/rejected', 'aead:truncate-string/rejected',
             'aead:truncate-bytes/rejected', 'aead:extend/rejected', 'aead:newline/rejected', 'aead:cr/rejected', 'aead:trailing-bits/rejected',
             'aead:swap-nonce-body/rejected', 'aead:nonce-only/rejected', 'aead:body-from-other-key/rejected', 'aead:nonce-from-other-seal/rejected',
             'aead:random-bytes/rejected', 'aead:random-string/rejected', 'aead:empty/rejected'],
